@@ -96,8 +96,7 @@ func (valdec byteArrayDecoder) copy(p interface{}, data []byte) {
 func (valdec byteArrayDecoder) Decode(dec *Decoder, p interface{}, tag byte) {
 	switch tag {
 	case TagBytes:
-		data := dec.UnsafeNext(dec.ReadInt())
-		dec.Skip()
+		data := dec.readUnsafeBytes()
 		valdec.copy(p, data)
 		dec.AddReference(p)
 	case TagUTF8Char:
@@ -105,9 +104,8 @@ func (valdec byteArrayDecoder) Decode(dec *Decoder, p interface{}, tag byte) {
 		valdec.copy(p, data)
 	case TagString:
 		if dec.IsSimple() {
-			data, _ := dec.readStringAsBytes(dec.ReadInt())
-			dec.Skip()
-			valdec.copy(p, data)
+			data, safe := dec.readStringAsBytes(dec.ReadInt())
+			valdec.copy(p, dec.skipAfter(data, safe))
 		} else {
 			valdec.copy(p, convert.ToUnsafeBytes(dec.ReadString()))
 		}
